@@ -491,3 +491,345 @@ Section Width.
     rewrite R2. apply fmin_init. apply MAX_ge, Rh.
   Qed.
 End Width.
+
+(** * The three back ends *)
+
+Ltac split_widths Hw := unfold widths in Hw; cbn [In] in Hw; destruct Hw as [<-|[<-|[<-|[<-|[]]]]].
+
+Lemma widths_pos w : In w widths -> (0 < w)%Z.
+Proof. intros Hw. split_widths Hw; lia. Qed.
+
+(** ** Fallback: Register = T *)
+
+Ltac fb_red :=
+  cbn [fallback_ops lanes r_filled r_zeroed r_add r_sub r_mul r_div r_fmadd r_max r_min
+       r_sum_to_value r_max_to_value r_min_to_value lane1 hd
+       int_math m_zero m_add m_sub m_mul m_div m_cmp_max m_cmp_min].
+
+(* The statements about [fallback_ops (int_math sg w)] mention [int_math], whose [m_sqrt] field is
+   [i_sqrt] (computed through Flocq's f64 square root), so [Print Assumptions] of anything that mentions
+   it lists Flocq's four real-number axioms.  To show that the proofs themselves use none, they are
+   carried out for an arbitrary scalar layer whose add/sub/mul/div/max/min/zero are the integer ones
+   ([m_sqrt], [m_abs], [m_cmp_eq], [m_one], [m_max], [m_min] are left arbitrary): these generic lemmas
+   are closed under the global context. *)
+Definition int_like (sg : bool) (w : Z) (M : MathOps Z) : Prop :=
+  m_zero M = 0%Z /\ m_add M = i_add w /\ m_sub M = i_sub w /\ m_mul M = i_mul w /\
+  m_div M = i_div sg w /\ m_cmp_max M = i_max sg w /\ m_cmp_min M = i_min sg w.
+
+Lemma int_math_int_like sg w : int_like sg w (int_math sg w).
+Proof. repeat split. Qed.
+
+Lemma fallback_lanewise_gen sg w M : (0 < w)%Z -> int_like sg w M -> IntLanewise w (fallback_ops M).
+Proof.
+  intros Hw HM. destruct M. unfold int_like in HM. cbn [SimdApi.m_zero SimdApi.m_add SimdApi.m_sub
+    SimdApi.m_mul SimdApi.m_div SimdApi.m_cmp_max SimdApi.m_cmp_min] in HM.
+  destruct HM as (-> & -> & -> & -> & -> & -> & ->).
+  constructor; try reflexivity.
+  - apply mk_ops_wf; try reflexivity.
+    intros x y z _ _. fb_red. destruct (i_div sg w _ _); intros E; inversion E. reflexivity.
+  - intros x y Hx Hy _ _. destruct (len1 x Hx) as [a ->]. destruct (len1 y Hy) as [b ->]. reflexivity.
+  - intros x y Hx Hy _ _. destruct (len1 x Hx) as [a ->]. destruct (len1 y Hy) as [b ->]. reflexivity.
+  - intros x y Hx Hy _ _. destruct (len1 x Hx) as [a ->]. destruct (len1 y Hy) as [b ->]. reflexivity.
+  - intros x Hx F. destruct (len1 x Hx) as [a ->]. inversion F; subst. fb_red.
+    split; [assumption|]. rewrite Zsum_cons. cbn [Zsum fold_right]. rewrite Z.add_0_r. apply eqm_refl.
+Qed.
+
+Lemma fallback_elementwise_gen sg w M : (0 < w)%Z -> int_like sg w M -> IntElementwise w sg (fallback_ops M).
+Proof.
+  intros Hw HM. destruct M. unfold int_like in HM. cbn [SimdApi.m_zero SimdApi.m_add SimdApi.m_sub
+    SimdApi.m_mul SimdApi.m_div SimdApi.m_cmp_max SimdApi.m_cmp_min] in HM.
+  destruct HM as (-> & -> & -> & -> & -> & -> & ->).
+  constructor; try reflexivity.
+  - intros x y Hx Hy _ _. destruct (len1 x Hx) as [a ->]. destruct (len1 y Hy) as [b ->]. reflexivity.
+  - intros x y Hx Hy _ _. destruct (len1 x Hx) as [a ->]. destruct (len1 y Hy) as [b ->]. reflexivity.
+  - intros x y Hx Hy _ _. destruct (len1 x Hx) as [a ->]. destruct (len1 y Hy) as [b ->].
+    fb_red. cbn [map2 sequence]. destruct (i_div sg w a b); reflexivity.
+  - intros x Hx F. destruct (len1 x Hx) as [a ->]. inversion F as [|? ? Ra _]; subst. fb_red.
+    split; [assumption|]. cbn [map fold_right]. pose proof (MIN_le w Hw sg a Ra); lia.
+  - intros x Hx F. destruct (len1 x Hx) as [a ->]. inversion F as [|? ? Ra _]; subst. fb_red.
+    split; [assumption|]. cbn [map fold_right]. pose proof (MAX_ge w Hw sg a Ra); lia.
+Qed.
+
+Theorem fallback_int_lanewise sg w : In w widths -> IntLanewise w (fallback_ops (int_math sg w)).
+Proof.
+  intros Hw. apply (fallback_lanewise_gen sg); [apply widths_pos, Hw | apply int_math_int_like].
+Qed.
+
+Theorem fallback_int_elementwise sg w : In w widths -> IntElementwise w sg (fallback_ops (int_math sg w)).
+Proof.
+  intros Hw. apply fallback_elementwise_gen; [apply widths_pos, Hw | apply int_math_int_like].
+Qed.
+
+(** ** AVX2 (256-bit) *)
+
+Lemma mul8_ok x y n : length x = 2 * n -> length y = 2 * n ->
+  Forall (in_range 8) x -> Forall (in_range 8) y -> mul8 x y = map2 (i_mul 8) x y.
+Proof.
+  intros Hx Hy Fx Fy. apply RegArith.mul8_correct; try assumption; [congruence|].
+  rewrite Hx, Nat.even_mul. reflexivity.
+Qed.
+
+Lemma a2_filled sg w v : r_filled (avx2_int_ops sg w) v = repeat v (lanes (avx2_int_ops sg w)).
+Proof. reflexivity. Qed.
+Lemma a2_mul sg w : r_mul (avx2_int_ops sg w)
+  = if (w =? 8)%Z then mul8 else if (w =? 64)%Z then map2 mul64_emul else map2 (i_mul w).
+Proof. reflexivity. Qed.
+Lemma a2_max sg w : r_max (avx2_int_ops sg w)
+  = if (w =? 64)%Z then map2 (max64_emul sg) else map2 (i_max sg w).
+Proof. reflexivity. Qed.
+Lemma a2_min sg w : r_min (avx2_int_ops sg w)
+  = if (w =? 64)%Z then map2 (min64_emul sg) else map2 (i_min sg w).
+Proof. reflexivity. Qed.
+Lemma a2_sumv sg w : r_sum_to_value (avx2_int_ops sg w) = avx2_hfold w (map2 (i_add w)) (i_add w) 0%Z.
+Proof. reflexivity. Qed.
+Lemma a2_maxv sg w : r_max_to_value (avx2_int_ops sg w)
+  = avx2_hfold w (r_max (avx2_int_ops sg w)) (i_max sg w) (i_MIN sg w).
+Proof. reflexivity. Qed.
+Lemma a2_minv sg w : r_min_to_value (avx2_int_ops sg w)
+  = avx2_hfold w (r_min (avx2_int_ops sg w)) (i_min sg w) (i_MAX sg w).
+Proof. reflexivity. Qed.
+
+Lemma a2_mul_len sg w x y n : length x = 2 * n -> length y = 2 * n ->
+  length (r_mul (avx2_int_ops sg w) x y) = 2 * n.
+Proof.
+  intros Hx Hy. rewrite a2_mul. destruct (w =? 8)%Z; [apply mul8_length; assumption|].
+  destruct (w =? 64)%Z; rewrite map2_length; lia.
+Qed.
+
+Lemma a2_mul_ok sg w x y n : length x = 2 * n -> length y = 2 * n ->
+  Forall (in_range w) x -> Forall (in_range w) y -> r_mul (avx2_int_ops sg w) x y = map2 (i_mul w) x y.
+Proof.
+  intros Hx Hy Fx Fy. rewrite a2_mul.
+  destruct (Z.eqb_spec w 8) as [->|_]; [apply (mul8_ok x y n); assumption|].
+  destruct (Z.eqb_spec w 64) as [->|_]; [|reflexivity].
+  apply (map2_ext_Forall (in_range 64)); [|assumption..]. apply RegArith.mul64_emul_correct.
+Qed.
+
+Lemma a2_max_len sg w x y : length (r_max (avx2_int_ops sg w) x y) = Nat.min (length x) (length y).
+Proof. rewrite a2_max. destruct (w =? 64)%Z; apply map2_length. Qed.
+Lemma a2_min_len sg w x y : length (r_min (avx2_int_ops sg w) x y) = Nat.min (length x) (length y).
+Proof. rewrite a2_min. destruct (w =? 64)%Z; apply map2_length. Qed.
+
+Lemma a2_max_ok sg w x y : Forall (in_range w) x -> Forall (in_range w) y ->
+  r_max (avx2_int_ops sg w) x y = map2 (i_max sg w) x y.
+Proof.
+  intros Fx Fy. rewrite a2_max. destruct (Z.eqb_spec w 64) as [->|_]; [|reflexivity].
+  apply (map2_ext_Forall (in_range 64)); [|assumption..]. apply RegArith.max64_emul_correct.
+Qed.
+Lemma a2_min_ok sg w x y : Forall (in_range w) x -> Forall (in_range w) y ->
+  r_min (avx2_int_ops sg w) x y = map2 (i_min sg w) x y.
+Proof.
+  intros Fx Fy. rewrite a2_min. destruct (Z.eqb_spec w 64) as [->|_]; [|reflexivity].
+  apply (map2_ext_Forall (in_range 64)); [|assumption..]. apply RegArith.min64_emul_correct.
+Qed.
+
+Lemma avx2_lanewise_gen sg w n :
+  (0 < w)%Z -> lanes (avx2_int_ops sg w) = 2 * n -> 1 <= n -> hshape w n ->
+  IntLanewise w (avx2_int_ops sg w).
+Proof.
+  intros Hw HL Hn Hs. constructor.
+  - apply mk_ops_wf; try reflexivity.
+    + lia.
+    + intros v. rewrite a2_filled. apply repeat_length.
+    + intros x y Hx Hy. change (r_add (avx2_int_ops sg w)) with (map2 (i_add w)). rewrite map2_length. lia.
+    + intros x y Hx Hy. change (r_sub (avx2_int_ops sg w)) with (map2 (i_sub w)). rewrite map2_length. lia.
+    + intros x y Hx Hy. rewrite HL in *. apply a2_mul_len; assumption.
+    + intros x y Hx Hy. rewrite a2_max_len. lia.
+    + intros x y Hx Hy. rewrite a2_min_len. lia.
+    + intros x y z Hx Hy E. change (r_div (avx2_int_ops sg w)) with (div_lanes sg w) in E.
+      apply div_lanes_length in E. lia.
+  - reflexivity.
+  - reflexivity.
+  - reflexivity.
+  - intros x y Hx Hy Fx Fy. rewrite HL in *. apply (a2_mul_ok sg w x y n); assumption.
+  - reflexivity.
+  - reflexivity.
+  - reflexivity.
+  - reflexivity.
+  - intros x Hx F. rewrite a2_sumv. rewrite HL in Hx. apply (avx2_hsum_ok w Hw x n); assumption.
+Qed.
+
+Lemma avx2_elementwise_gen sg w n :
+  (0 < w)%Z -> lanes (avx2_int_ops sg w) = 2 * n -> 1 <= n -> hshape w n ->
+  IntElementwise w sg (avx2_int_ops sg w).
+Proof.
+  intros Hw HL Hn Hs. constructor.
+  - reflexivity.
+  - intros x y _ _. apply a2_max_ok.
+  - intros x y _ _. apply a2_min_ok.
+  - intros x y _ _ _ _. apply div_lanes_seq.
+  - reflexivity.
+  - reflexivity.
+  - reflexivity.
+  - reflexivity.
+  - intros x Hx F. rewrite a2_maxv. rewrite HL in Hx.
+    apply (avx2_hmax_ok w Hw sg _ x n); try assumption. apply a2_max_ok.
+  - intros x Hx F. rewrite a2_minv. rewrite HL in Hx.
+    apply (avx2_hmin_ok w Hw sg _ x n); try assumption. apply a2_min_ok.
+Qed.
+
+Lemma avx2_shape sg w : In w widths ->
+  exists n, lanes (avx2_int_ops sg w) = 2 * n /\ 1 <= n /\ hshape w n.
+Proof.
+  intros Hw. split_widths Hw; [exists 16 | exists 8 | exists 4 | exists 2];
+    (split; [reflexivity | split; [lia | vm_compute; reflexivity]]).
+Qed.
+
+Theorem avx2_int_lanewise sg w : In w widths -> IntLanewise w (avx2_int_ops sg w).
+Proof.
+  intros Hw. destruct (avx2_shape sg w Hw) as (n & HL & Hn & Hs).
+  apply (avx2_lanewise_gen sg w n); auto using widths_pos.
+Qed.
+
+Theorem avx2_int_elementwise sg w : In w widths -> IntElementwise w sg (avx2_int_ops sg w).
+Proof.
+  intros Hw. destruct (avx2_shape sg w Hw) as (n & HL & Hn & Hs).
+  apply (avx2_elementwise_gen sg w n); auto using widths_pos.
+Qed.
+
+(** ** AVX-512 *)
+
+Lemma a5_filled sg w v : r_filled (avx512_int_ops sg w) v = repeat v (lanes (avx512_int_ops sg w)).
+Proof. reflexivity. Qed.
+Lemma a5_mul sg w : r_mul (avx512_int_ops sg w) = if (w =? 8)%Z then mul8 else map2 (i_mul w).
+Proof. reflexivity. Qed.
+Lemma a5_sumv sg w : r_sum_to_value (avx512_int_ops sg w)
+  = if (w <=? 16)%Z
+    then fun reg => r_sum_to_value (avx2_int_ops sg w)
+                      (r_add (avx2_int_ops sg w) (upper_half reg) (lower_half reg))
+    else fun reg => fold_left (i_add w) reg 0%Z.
+Proof. reflexivity. Qed.
+Lemma a5_maxv sg w : r_max_to_value (avx512_int_ops sg w)
+  = if (w <=? 16)%Z
+    then fun reg => r_max_to_value (avx2_int_ops sg w)
+                      (r_max (avx2_int_ops sg w) (upper_half reg) (lower_half reg))
+    else fun reg => fold_left (i_max sg w) (tl reg) (hd 0%Z reg).
+Proof. reflexivity. Qed.
+Lemma a5_minv sg w : r_min_to_value (avx512_int_ops sg w)
+  = if (w <=? 16)%Z
+    then fun reg => r_min_to_value (avx2_int_ops sg w)
+                      (r_min (avx2_int_ops sg w) (upper_half reg) (lower_half reg))
+    else fun reg => fold_left (i_min sg w) (tl reg) (hd 0%Z reg).
+Proof. reflexivity. Qed.
+
+Lemma a5_mul_len sg w x y n : length x = 2 * n -> length y = 2 * n ->
+  length (r_mul (avx512_int_ops sg w) x y) = 2 * n.
+Proof.
+  intros Hx Hy. rewrite a5_mul. destruct (w =? 8)%Z; [apply mul8_length; assumption|].
+  rewrite map2_length; lia.
+Qed.
+
+Lemma a5_mul_ok sg w x y n : length x = 2 * n -> length y = 2 * n ->
+  Forall (in_range w) x -> Forall (in_range w) y -> r_mul (avx512_int_ops sg w) x y = map2 (i_mul w) x y.
+Proof.
+  intros Hx Hy Fx Fy. rewrite a5_mul.
+  destruct (Z.eqb_spec w 8) as [->|_]; [apply (mul8_ok x y n); assumption | reflexivity].
+Qed.
+
+(* the lane count is 2n; for the widths folded through the AVX2 code the 256-bit half (n lanes) is
+   itself 2k lanes with k of the shape [avx2_hfold] expects *)
+Definition shape512 (w : Z) (n : nat) : Prop :=
+  if (w <=? 16)%Z then exists k, n = 2 * k /\ hshape w k else True.
+
+Lemma avx512_lanewise_gen sg w n :
+  (0 < w)%Z -> lanes (avx512_int_ops sg w) = 2 * n -> 1 <= n -> shape512 w n ->
+  IntLanewise w (avx512_int_ops sg w).
+Proof.
+  intros Hw HL Hn Hs. constructor.
+  - apply mk_ops_wf; try reflexivity.
+    + lia.
+    + intros v. rewrite a5_filled. apply repeat_length.
+    + intros x y Hx Hy. change (r_add (avx512_int_ops sg w)) with (map2 (i_add w)). rewrite map2_length. lia.
+    + intros x y Hx Hy. change (r_sub (avx512_int_ops sg w)) with (map2 (i_sub w)). rewrite map2_length. lia.
+    + intros x y Hx Hy. rewrite HL in *. apply a5_mul_len; assumption.
+    + intros x y Hx Hy. change (r_max (avx512_int_ops sg w)) with (map2 (i_max sg w)). rewrite map2_length. lia.
+    + intros x y Hx Hy. change (r_min (avx512_int_ops sg w)) with (map2 (i_min sg w)). rewrite map2_length. lia.
+    + intros x y z Hx Hy E. change (r_div (avx512_int_ops sg w)) with (div_lanes sg w) in E.
+      apply div_lanes_length in E. lia.
+  - reflexivity.
+  - reflexivity.
+  - reflexivity.
+  - intros x y Hx Hy Fx Fy. rewrite HL in *. apply (a5_mul_ok sg w x y n); assumption.
+  - reflexivity.
+  - reflexivity.
+  - reflexivity.
+  - reflexivity.
+  - intros x Hx F. rewrite a5_sumv. rewrite HL in Hx. unfold shape512 in Hs.
+    destruct (w <=? 16)%Z.
+    + destruct Hs as (k & Ek & Hk). cbv beta.
+      change (r_add (avx2_int_ops sg w)) with (map2 (i_add w)). rewrite a2_sumv.
+      assert (Lf : length (map2 (i_add w) (upper_half x) (lower_half x)) = 2 * k)
+        by (rewrite map2_length, (upper_len x n Hx), (lower_len x n Hx); lia).
+      destruct (avx2_hsum_ok w Hw _ k Lf Hk) as [R1 R2]. split; [exact R1|].
+      eapply eqm_trans; [exact R2|]. apply (Zsum_halves w Hw x n Hx).
+    + destruct (fold_left_add_ok w Hw x 0%Z (okv_0 w Hw)) as [R1 R2]. split; [exact R1|].
+      rewrite Z.add_0_l in R2. exact R2.
+Qed.
+
+Lemma avx512_elementwise_gen sg w n :
+  (0 < w)%Z -> lanes (avx512_int_ops sg w) = 2 * n -> 1 <= n -> shape512 w n ->
+  IntElementwise w sg (avx512_int_ops sg w).
+Proof.
+  intros Hw HL Hn Hs. constructor.
+  - reflexivity.
+  - reflexivity.
+  - reflexivity.
+  - intros x y _ _ _ _. apply div_lanes_seq.
+  - reflexivity.
+  - reflexivity.
+  - reflexivity.
+  - reflexivity.
+  - intros x Hx F. rewrite a5_maxv. rewrite HL in Hx. unfold shape512 in Hs.
+    destruct (w <=? 16)%Z.
+    + destruct Hs as (k & Ek & Hk). cbv beta.
+      destruct (Forall_halves _ x F) as [Fu Fl]. rewrite (a2_max_ok sg w _ _ Fu Fl), a2_maxv.
+      assert (Lf : length (map2 (i_max sg w) (upper_half x) (lower_half x)) = 2 * k)
+        by (rewrite map2_length, (upper_len x n Hx), (lower_len x n Hx); lia).
+      assert (Ff : Forall (in_range w) (map2 (i_max sg w) (upper_half x) (lower_half x)))
+        by (apply Forall_map2_ok; auto using okv_max).
+      destruct (avx2_hmax_ok w Hw sg _ _ k (a2_max_ok sg w) Lf Hk Ff) as [R1 R2]. split; [exact R1|].
+      rewrite R2. apply (fmax_halves w sg _ x n Hx).
+    + apply (reduce_max_ok w Hw sg x); [|exact F]. intros ->. cbn in Hx. lia.
+  - intros x Hx F. rewrite a5_minv. rewrite HL in Hx. unfold shape512 in Hs.
+    destruct (w <=? 16)%Z.
+    + destruct Hs as (k & Ek & Hk). cbv beta.
+      destruct (Forall_halves _ x F) as [Fu Fl]. rewrite (a2_min_ok sg w _ _ Fu Fl), a2_minv.
+      assert (Lf : length (map2 (i_min sg w) (upper_half x) (lower_half x)) = 2 * k)
+        by (rewrite map2_length, (upper_len x n Hx), (lower_len x n Hx); lia).
+      assert (Ff : Forall (in_range w) (map2 (i_min sg w) (upper_half x) (lower_half x)))
+        by (apply Forall_map2_ok; auto using okv_min).
+      destruct (avx2_hmin_ok w Hw sg _ _ k (a2_min_ok sg w) Lf Hk Ff) as [R1 R2]. split; [exact R1|].
+      rewrite R2. apply (fmin_halves w sg _ x n Hx).
+    + apply (reduce_min_ok w Hw sg x); [|exact F]. intros ->. cbn in Hx. lia.
+Qed.
+
+Lemma avx512_shape sg w : In w widths ->
+  exists n, lanes (avx512_int_ops sg w) = 2 * n /\ 1 <= n /\ shape512 w n.
+Proof.
+  intros Hw. split_widths Hw; [exists 32 | exists 16 | exists 8 | exists 4];
+    (split; [reflexivity | split; [lia|]]).
+  - exists 16. split; [reflexivity | vm_compute; reflexivity].
+  - exists 8. split; [reflexivity | vm_compute; reflexivity].
+  - exact I.
+  - exact I.
+Qed.
+
+Theorem avx512_int_lanewise sg w : In w widths -> IntLanewise w (avx512_int_ops sg w).
+Proof.
+  intros Hw. destruct (avx512_shape sg w Hw) as (n & HL & Hn & Hs).
+  apply (avx512_lanewise_gen sg w n); auto using widths_pos.
+Qed.
+
+Theorem avx512_int_elementwise sg w : In w widths -> IntElementwise w sg (avx512_int_ops sg w).
+Proof.
+  intros Hw. destruct (avx512_shape sg w Hw) as (n & HL & Hn & Hs).
+  apply (avx512_elementwise_gen sg w n); auto using widths_pos.
+Qed.
+
+(** ** lane counts *)
+
+Theorem avx2_int_lanes sg w : In w widths -> Z.of_nat (lanes (avx2_int_ops sg w)) = (256 / w)%Z.
+Proof. intros Hw. split_widths Hw; reflexivity. Qed.
+
+Theorem avx512_int_lanes sg w : In w widths -> Z.of_nat (lanes (avx512_int_ops sg w)) = (512 / w)%Z.
+Proof. intros Hw. split_widths Hw; reflexivity. Qed.
